@@ -893,7 +893,9 @@ func (env *Zlisp) Run() (Sexp, error) {
 			fmt.Printf("\n ====== in '%s', now running the above.\n",
 				env.curfunc.name)
 		}
+		instr = verifBefore(env, instr)
 		err := instr.Execute(env)
+		verifAfter(env, instr, err)
 		if err != nil {
 			env.restoreControlState(runState)
 			env.pc = functionSize(env.curfunc)
